@@ -455,7 +455,11 @@ func (e *Enc) sliceOp(in *ssa.Slice, st *State) {
 		n := num(at.Len())
 		lo, hi := get(in.Low, "0"), get(in.High, n)
 		e.oblige("slice", exprText(in.X)+"[:]", in.Pos(), and(app("<=", "0", lo), app("<=", lo, hi), app("<=", hi, n)))
-		e.set(in, &Val{typ: in.Type(), c: []string{x.c[0], lo, app("-", hi, lo), app("-", n, lo)}})
+		ln, cp := app("-", hi, lo), app("-", n, lo)
+		if lo == "0" {
+			ln, cp = hi, n
+		}
+		e.set(in, &Val{typ: in.Type(), c: []string{x.c[0], lo, ln, cp}})
 	default:
 		e.unsupported("slice of %s", in.X.Type())
 		e.set(in, e.freshVal("slice", in.Type()))
